@@ -13,19 +13,32 @@ EXTENDS Cut, TLC, Json
 
 Known(r) == Len(r.names) <= 9 /\ \A i \in DOMAIN r.names : r.names[i] \in AllNames
 PiecesOf(r) == IF Known(r) THEN Pieces(r.names, r.fmt) ELSE <<>>
+(* READING of "the content of a raw block is emitted exactly as written": whatever stands between
+   {% raw [m] %} and the first matching end statement is content, never syntax - so a template that the
+   reference has an opinion about (every piece well formed, blocks balanced) and that contains a raw block
+   must not be REFUSED: a build error means raw content was taken for syntax (or the end was missed).
+   Applied only where a raw block is allowed wherever the catalogue can put it: not in Markdown, whose
+   code-block contexts refuse {% raw %} on purpose.  A build error on a template without raw block is
+   still only counted. *)
+HasRaw(ps) == \E i \in DOMAIN ps : ps[i].k = "raw"
+RawNames(r) == LET ps == PiecesOf(r) rs == SelectSeq(r.names, LAMBDA n : n \in {"raw", "rawm", "rawnl", "rawe", "rawp", "rawps", "rawpn", "rawbb", "rawh"})
+               IN IF rs = <<>> THEN "-" ELSE rs[1]
+RawMustBuild(ps, fmt) == HasRaw(ps) /\ fmt \in {"txt", "html", "css", "js", "json"}
 \* <<has opinion, judged, ok>>
 Verdict(r) ==
   LET ps == PiecesOf(r) src == Src(ps) cls == Cls(ps)
       op == Known(r) /\ r.fmt \in {"txt", "html", "md", "js", "css", "json"} /\ src = r.src /\ DefinedX(ps, src, cls, r.fmt)
       j == op /\ r.outcome = "ok"
-  IN <<op, j, IF j THEN InEnvelopeX(ps, src, cls, r.out) ELSE ~(op /\ r.outcome = "hostpanic")>>
+  IN <<op, j, IF j THEN InEnvelopeX(ps, src, cls, r.out)
+              ELSE ~(op /\ (r.outcome = "hostpanic" \/ (r.outcome = "builderr" /\ RawMustBuild(ps, r.fmt))))>>
 RecOk(r) == Verdict(r)[3]
 \* signature: the root cause as far as the reference can see it, not the input
 Sig(r) == IF r.outcome = "hostpanic"
           THEN LET ps == PiecesOf(r) src == Src(ps) cls == Cls(ps) IN
                [fam |-> "cut", cause |-> "host-panic", detail |-> r.errclass,
-                ctx |-> IF AfterML(ps, src, cls, 1, 0) # {} THEN "space-after-multi-line-statement" ELSE "other"]
-          ELSE LET c == Cause(PiecesOf(r), r.out) IN [fam |-> "cut", cause |-> c[1], detail |-> c[2], ctx |-> "-"]
+                ctx |-> IF AfterML(ps, src, cls, 1, 0) # {} THEN "space-after-multi-line-statement" ELSE "other", next |-> "-"]
+          ELSE IF r.outcome # "ok" THEN [fam |-> "cut", cause |-> "template-with-raw-block-refused", detail |-> r.errclass, ctx |-> RawNames(r), next |-> "-"]
+          ELSE LET c == Cause(PiecesOf(r), r.out) IN [fam |-> "cut", cause |-> c[1], detail |-> c[2], ctx |-> c[3], next |-> c[4]]
 
 \* model drift (diagnostic): a model run whose cuts overlap has no output (the real build panics)
 ModelDiffers(toks, variant, out) == LET fin == PRun(PS0(Len(toks)), toks, 1, variant) IN
